@@ -508,6 +508,10 @@ impl Writer {
                 // switch to new merge data file if we exceed the max file size
                 merge_pos += nbytes;
                 if merge_pos > self.ctx.conf.max_file_size {
+                    // the finished output must be durable before its inputs are removed
+                    io::Write::flush(&mut merge_datafile_writer)?;
+                    merge_datafile_writer.get_ref().sync_all()?;
+                    merge_hintfile_writer.sync()?;
                     merge_fileid += 1;
                     merge_pos = 0;
                     merge_datafile_writer =
@@ -517,6 +521,10 @@ impl Writer {
                     debug!(merge_fileid, "new merge file");
                 }
             }
+            // the last output must be durable before its inputs are removed
+            io::Write::flush(&mut merge_datafile_writer)?;
+            merge_datafile_writer.get_ref().sync_all()?;
+            merge_hintfile_writer.sync()?;
         }
 
         // Remove stale files from system and storage statistics
@@ -741,8 +749,14 @@ where
     P: AsRef<Path>,
 {
     let file = log::open(utils::hintfile_name(&path, fileid))?;
+    let datafile_len = fs::metadata(utils::datafile_name(&path, fileid))?.len();
     let mut hintfile_iter = LogIterator::new(file)?;
     while let Some((_, entry)) = hintfile_iter.next::<HintFileEntry>()? {
+        // After a power loss a hint can be ahead of the data it describes, the hints are
+        // written in data order so everything from the first such entry on is ignored
+        if entry.pos.saturating_add(entry.len) > datafile_len {
+            break;
+        }
         let keydir_entry = KeyDirEntry {
             fileid,
             len: entry.len,
